@@ -53,6 +53,26 @@ def suite_merges(seed, tier):
         if thr != thr:
             thr = 0.5
         cases.append((crit, tol, thr, old, old_n, nom, nom_n, new, new_n))
+    # big-moment stream: the sum of squared column counts of the merged cluster lands next to 2^31, 2^32,
+    # 2^33 (cluster sizes of thousands; a few dense columns or many)
+    for _ in range(40 if tier == "quick" else 600):
+        nf = rng.choice([1, 2, 3, 5, 16, 40])
+        target = rng.choice([2 ** 31, 2 ** 32, 2 ** 32, 2 ** 33])
+        k0 = int((target / nf) ** 0.5)
+        old = [max(1, k0 + rng.choice([-3, -1, 0, 0, 1, 2, 40])) for _ in range(nf)]
+        old_n = max(old) + rng.choice([0, 0, 1, 17, 1000])
+        nom_n = rng.choice([1, 1, 2, 45])
+        nom = [rng.choice([0, nom_n, rng.randint(0, nom_n)]) for _ in range(nf)]
+        new = [a + b for a, b in zip(old, nom)]
+        new_n = old_n + nom_n
+        crit = rng.choice(hist.CRITS)
+        tol = rng.choice([0.0, 0.05, 1.0]) if crit in hist.HAS_TOL else None
+        d, rc = stat_values(new, new_n)
+        base = rc if "radius" in crit else d
+        thr = rng.choice([0.3, 0.65, 0.95, 0.99, base, float(np.nextafter(base, 2.0)), float(np.nextafter(base, -1.0))])
+        if thr != thr:
+            thr = 0.5
+        cases.append((crit, tol, thr, old, old_n, nom, nom_n, new, new_n))
     # moment-collision stream: old clusters with equal (n, sum k, sum k^2) but different
     # column counts, probed one after the other with the same criterion object
     import itertools
@@ -81,6 +101,11 @@ def suite_merges(seed, tier):
                               np.array(old, dtype=min_safe_uint(old_n)),
                               np.array(nom, dtype=min_safe_uint(nom_n)), old_n, nom_n))
     first = [call(c) for c in cases]
+    import oracles
+    for c, res in zip(cases, first):
+        v = oracles.c10_exact_violation(c[0], c[2], c[7], c[8], res)
+        if v:
+            r.bad.append({"suite": "merges", "kind": "law", "what": v, "case": list(c[:7])})
     order = list(range(len(cases)))
     rng.shuffle(order)
     second = {}
@@ -95,7 +120,7 @@ def suite_merges(seed, tier):
         crit, tol, thr, old, old_n, nom, nom_n, new, new_n = c
         terms.append(f"Bool.eqb (accept fexp {hist.crit_term(crit, tol)} {cfloat(thr)} {czl(new)} "
                      f"{cz(new_n)} {czl(old)} {czl(nom)} {cz(old_n)} {cz(nom_n)}) {cbool(res)}")
-    pre = hist.exp_preamble(1600).replace("Model.Obs.", "Model.Obs.\nFrom BB Require Import Model.ObsBits.")
+    pre = hist.exp_preamble(1600, extra_ns=sorted({c[4] for c in cases if c[4] > 1600})).replace("Model.Obs.", "Model.Obs.\nFrom BB Require Import Model.ObsBits.")
     out = eval_cases("merges", pre, terms, shard=300)
     r.cases = len(cases)
     r.nontrivial = len({str(c) for c in cases})
